@@ -124,16 +124,16 @@ Lemma remove1 c rest : remove_part 1 (c :: rest) = Ok rest.
 Proof. change 1 with (char_count [c]). change (c :: rest) with ([c] ++ rest). apply remove_part_app. Qed.
 Lemma pdp_other now c0 c rest : is_date_symbol c0 = false -> (c0 <? 128) = true -> parse_date_part now [c0] (c :: rest) = Ok (None, rest).
 Proof.
-  intros H Ha. unfold is_date_symbol in H. rewrite !orb_false_iff in H. destruct H as (((((((H1 & H2) & H3) & H4) & H5) & H6) & H7) & H8).
+  intros H _. unfold is_date_symbol in H. rewrite !orb_false_iff in H. destruct H as (((((((H1 & H2) & H3) & H4) & H5) & H6) & H7) & H8).
   unfold parse_date_part. cbn [first_char length]. rewrite H1, H2, H3, H4, H5, H6, H7, H8.
-  cbn [byte_len fold_right]. unfold utf8_len. rewrite Ha. change (1 + 0) with 1. rewrite remove1. reflexivity.
+  change (char_count [c0]) with 1. rewrite remove1. reflexivity.
 Qed.
 Lemma ptp_other c0 c rest : is_time_symbol c0 = false -> (c0 <? 128) = true -> parse_time_part [c0] (c :: rest) = Ok (None, rest).
 Proof.
-  intros H Ha. unfold is_time_symbol in H. rewrite !orb_false_iff in H.
+  intros H _. unfold is_time_symbol in H. rewrite !orb_false_iff in H.
   destruct H as ((((((((((H1 & H2) & H3) & H4) & H5) & H6) & H7) & H8) & H9) & H10) & H11).
   unfold parse_time_part. cbn [first_char length]. rewrite H1, H2, H3, H4, H5, H6, H7, H8, H9, H10, H11.
-  cbn [byte_len fold_right]. unfold utf8_len. rewrite Ha. change (1 + 0) with 1. rewrite remove1. reflexivity.
+  change (char_count [c0]) with 1. rewrite remove1. reflexivity.
 Qed.
 
 (* ---------- Date: yyyy-MM-dd written and read back (Display uses '/', serde and FromStr '-') ---------- *)
@@ -354,7 +354,7 @@ Lemma ptp_unfold c w s : 1 <= w ->
     end
   else if c =? 88 then parse_zone len s true
   else if c =? 120 then parse_zone len s false
-  else (let? rest := remove_part (byte_len (run c w)) s in no_part rest)).
+  else (let? rest := remove_part (char_count (run c w)) s in no_part rest)).
 Proof. intros H. unfold parse_time_part. cbv zeta. rewrite run_first by exact H. rewrite run_len by lia. reflexivity. Qed.
 
 (* H, K, m, s : widths 1 (next character not a digit) and 2 *)
@@ -614,7 +614,7 @@ Lemma pdp_unfold now c w s : 1 <= w ->
            some_part PDayOfYear v rest
     end
   else if c =? 101 then parse_wday len s
-  else (let? rest := remove_part (byte_len (run c w)) s in no_part rest)).
+  else (let? rest := remove_part (char_count (run c w)) s in no_part rest)).
 Proof. intros H. unfold parse_date_part. cbv zeta. rewrite run_first by exact H. rewrite run_len by lia. reflexivity. Qed.
 
 (* y, yyy, yyyy: sign and a run of digits, ended by a character that is not a digit *)
